@@ -16,6 +16,16 @@ def pipeline(texts, workdir, tag="m"):
     if p.returncode != 0:
         return {"crash": p.stderr[-1500:], "exit": p.returncode}
     rows = [json.loads(l) for l in p.stdout.splitlines() if l.strip()]
+    files = [r for r in rows if "file" in r]
+    rows = [r for r in rows if "file" not in r]
+    code = "\n".join(f["code"] for f in files)
+    # all impl blocks per definition from the complete generated file (accessors live there)
+    impls = {}
+    for m in re.finditer(r"^impl (\w+) \{.*?^\}", code, re.S | re.M):
+        impls.setdefault(m.group(1), []).append(m.group(0))
+    for r in rows:
+        if "name" in r:
+            r["impls"] = "\n".join(impls.get(r["name"], []))
     return rows
 
 
